@@ -445,6 +445,12 @@ func cmdRingReplay(a Args) {
 		if err := json.Unmarshal(line, &sc); err != nil {
 			return err
 		}
+		// the verdict is clear after a few confirmed blocked steps (each costs three deadlines)
+		// or many mismatches: skip the rest of this shard
+		if res.Counts["blocked_confirmed"] >= 3 || res.NMismatch >= 300 {
+			res.Counts["skipped_after_violation"]++
+			return nil
+		}
 		res.Evaluations++
 		res.Steps += len(sc.H)
 		d := replayRing(&sc, res.Counts)
@@ -460,6 +466,9 @@ func cmdRingReplay(a Args) {
 					d = d2
 				}
 			}
+		}
+		if d != "" && strings.Contains(d, "BLOCKED") {
+			res.Counts["blocked_confirmed"]++
 		}
 		if d != "" {
 			tag := "C15"
